@@ -11,3 +11,7 @@ open Model.OMapRep
 #print axioms abs_reverse
 #print axioms fromEntries_eq
 #print axioms merge_eq
+
+#print axioms abs_ofList
+#print axioms agree_of_universe
+#print axioms inv_maps_are_reps
